@@ -273,6 +273,14 @@ def flag_known(fn, flag_is, gen_value, at_nodes):
         while c is not None and c.get("k") == "UnaryOperator" and c.get("op") == "!":
             neg = not neg
             c = strip(c["c"][0])
+        if c is not None and c.get("k") == "BinaryOperator" and c.get("op") in ("==", "!="):
+            # flag == false, true != flag, ...
+            a, b = strip(c["c"][0]), strip(c["c"][1])
+            for x, y in ((a, b), (b, a)):
+                if y is not None and y.get("k") == "CXXBoolLiteralExpr" and x is not None and flag_is(("read", x)):
+                    lit = (y.get("val") == "true")
+                    val = lit if c["op"] == "==" else (not lit)
+                    return (not val) if neg else val
         if c is not None and flag_is(("read", c)):
             return not neg
         return None
